@@ -715,7 +715,9 @@ func (up4 *UP4) addOrUpdateGTPTunnelPeer(far far) error {
 
 	releaseTnlPeerID := func() {
 		if !exists {
-			up4.unsafeReleaseAllocatedGTPTunnelPeer(tunnelParameters)
+			// the new peer is not in tunnelPeerIDs yet (it is stored only after a successful
+			// write), so unsafeReleaseAllocatedGTPTunnelPeer would not find it: hand the ID back
+			up4.tunnelPeerIDsPool = append(up4.tunnelPeerIDsPool, tnlPeer.id)
 		}
 	}
 
